@@ -60,8 +60,9 @@ func c12RepeatRecipients(x ap.Item) {
 			l := append(append(ap.ItemCollection{}, more...), f.Interface().(ap.ItemCollection)...)
 			f.Set(reflect.ValueOf(l))
 		}
-		prepend(to, who, ap.IRI(fmt.Sprintf("https://example.com/only-to/%d", n)))
-		prepend(cc, who, ap.IRI(fmt.Sprintf("https://example.com/only-cc/%d", n)))
+		// the public collection under its compact names (as:Public, Public), which a writer may want to spell out - in what it writes
+		prepend(to, who, ap.IRI(fmt.Sprintf("https://example.com/only-to/%d", n)), ap.IRI("as:Public"))
+		prepend(cc, who, ap.IRI(fmt.Sprintf("https://example.com/only-cc/%d", n)), ap.IRI("Public"), ap.PublicNS)
 		prepend(bcc, &ap.Actor{ID: who, Type: ap.PersonType}, ap.IRI(fmt.Sprintf("https://example.com/only-bcc/%d", n)))
 	})
 }
